@@ -27,7 +27,7 @@ RULE = ('A case is one seeded small library (4..40 fragments, 1..4 contigs, with
         'x method {nla, chic} x initial state {empty directory, leftovers of a successful run}; for it the fault family is ENUMERATED from the crash-point map of '
         'a fault-free traced run: kill (os._exit) at every distinct executed (function,line) of the pipeline functions in every occurrence class '
         '{first, second, middle, last-but-one, last}; an exception at every I/O seam (pysam.sort/index/merge/idxstats, AlignmentFile.write/close, os.rename/remove, '
-        'shutil.move/rmtree; fetch of the input: EIO or a failing allocation at a delivered record) in call-index classes {0,1,middle,last} with each applicable error; worker exception / loss in every job; thorough tier adds '
+        'shutil.move/rmtree; fetch of the input: EIO or a failing allocation at a delivered record) in call-index classes {0,1,middle,last} with each applicable error; worker exception / loss in every job; SIGINT (KeyboardInterrupt inside the blocking next()) while the main process waits for result {0,1,middle,last,end}; thorough tier adds '
         'file-size limits (EFBIG) at 24 quantiles. evaluations = lifetimes under one fault. Non-trivial: the fault fired after the first record was written and '
         'before the lifetime would have ended (in-flight state); distinct = distinct (case, fault plan) signatures among those.')
 ASSUMPTIONS = [
@@ -144,6 +144,9 @@ def enumerate_plans(crossings, seam_calls, njobs, mp, tier, bytes_written):
         for t in range(njobs):
             for wk in ('exception', 'lost-before', 'lost-after'):
                 plans.append({'kind': 'worker', 'task': t, 'wkind': wk})
+        # the operator presses Ctrl-C while the main process waits for its k-th result
+        for t in sorted({0, 1, njobs // 2, max(0, njobs - 1), njobs}):
+            plans.append({'kind': 'worker', 'task': t, 'wkind': 'interrupt'})
     if tier == 'thorough' and bytes_written:
         for q in range(1, 25):
             plans.append({'kind': 'fsize', 'q': q})       # limit = q/25 of the bytes the fault-free run wrote (computed at run time)
